@@ -149,6 +149,12 @@ class NativeBackend:
             d[tuple(unrow(r)[k] for k in sorted(K))] = r
         return (X[0], tuple(d.values()))
 
+    def snoc(self, X, r): return (X[0], X[1] + (r,))
+    def prefix(self, X, i): return (X[0], X[1][:max(i, 0)])
+    def nth(self, X, i): return X[1][i] if 0 <= i < len(X[1]) else mask({t: 0 for t in TAGS}, ())
+    def rput(self, r, t, v): return tuple((v if u == t else x) for u, x in zip(TAGS, r))
+    def rmask(self, P, r): return mask(unrow(r), P)
+    def capp(self, cl, r): return int(cl.fn(unrow(r)))
     def mapc(self, t, cl, X): return self.calc(t, cl, X)
     def filterc(self, cl, X): return self.filter(cl, X)
     def den_x(self, cl, e): return all(cl.fn(r) == e.fn(r) for r in ALL_ROWS)
@@ -209,6 +215,8 @@ def domain(kind, N, rng):
         out += [(t,) for t in terms]
         out += [(t, u) for t in terms for u in terms]
         return out
+    if kind == "Row":
+        return [mask(r, TAGS) for r in ALL_ROWS]
     if kind == "RS":
         return None  # sampled
     raise KeyError(kind)
@@ -262,6 +270,8 @@ def direct(l, vals, B, rng):
         v["P"] = frozenset(t for t in v["Q"] if rng.random() < 0.6)
     elif l.name == "proj-full":
         v["P"] = v["X"][0]
+    elif l.name == "slice-prefix" and v["b"] is not None:
+        v["b"] = min(abs(v["b"]), len(v["X"][1]))
     elif l.name in ("join-unit",):
         v["K"] = frozenset()
     return [v[n] for n in names]
